@@ -229,7 +229,8 @@ fn viol(acc: &mut Acc, prop: &str, clause: &str, case: &Case, r: &Routed, po: &P
 fn g4_unrescaled(log: &LogRec) -> bool {
     let ok = |v: f64| v.is_finite() && v >= 1e-280 && v <= 1e280;
     match (&log.x_unrescaled, log.u_trop_nr, log.v_trop_nr) {
-        (Some(x), Some(u), Some(v)) => x.iter().all(|a| ok(*a)) && ok(u) && ok(v),
+        // the product U_tr V_tr is an intermediate of the rescaling as well (the implementation forms it and divides by it)
+        (Some(x), Some(u), Some(v)) => x.iter().all(|a| ok(*a)) && ok(u) && ok(v) && ok(u * v),
         _ => false,
     }
 }
@@ -1127,9 +1128,9 @@ pub fn run_simple(ctx: &Ctx) -> i32 {
         },
         tropical_routing: matches!(prop, "C09" | "C10" | "C11"),
         points_per_case: match prop {
-            "C10" => tier.pick(4500, 60000),
-            "C09" => tier.pick(1000, 20000),
-            _ => tier.pick(1500, 20000),
+            "C10" => tier.pick(4500, 15000),
+            "C09" => tier.pick(1000, 5000),
+            _ => tier.pick(1500, 5000),
         },
         basis_orbit: prop == "C10",
         basis_orbit_min_loops: 2,
